@@ -154,6 +154,10 @@ PlacePreds == {TRUEF, A1, [k |-> "atom", sym |-> <<"s">>, a |-> IsNull(FALSE)], 
 PlaceSubQs == {[p |-> p, sort |-> << >>, skip |-> sk, limit |-> li] : p \in PlacePreds, sk \in {NoVal, 1}, li \in {NoVal, 1}}
 SubQ == {Q([k |-> "countq", sym |-> sym, q |-> q, op |-> op, n |-> n]) : sym \in {<<"peers">>}, q \in SubQs, op \in {"eq", "gt"}, n \in {N(0), N(1), N(2)}}
         \cup {Q([k |-> "isEmptyq", sym |-> sym, q |-> q]) : sym \in {<<"peers">>, <<"boss", "peers">>}, q \in SubQs}
+        \* sub-queries over a set whose linked type is the plain child store: only rows with child data are seen
+        \cup {Q([k |-> "countq", sym |-> sym, q |-> q, op |-> op, n |-> n]) : sym \in {<<"kids">>, <<"boss", "kids">>}, q \in SubQs, op \in {"eq", "gt"}, n \in {N(0), N(1)}}
+        \cup {Q([k |-> "isEmptyq", sym |-> sym, q |-> q]) : sym \in {<<"kids">>, <<"boss", "kids">>}, q \in SubQs}
+        \cup {Q([k |-> fn, sym |-> <<"kids">>, a |-> Cmp("eq", S(sA))]) : fn \in {"anyOf", "allOf"}} \cup {Q([k |-> "isEmpty", sym |-> <<"kids">>])}
         \* sub-queries whose elements are of another entity type than the row (and than the first hop of the chain)
         \cup {Q([k |-> "countq", sym |-> sym, q |-> q, op |-> op, n |-> n]) : sym \in {<<"places">>, <<"boss", "places">>}, q \in PlaceSubQs, op \in {"eq", "gt"}, n \in {N(0), N(1)}}
         \cup {Q([k |-> "isEmptyq", sym |-> sym, q |-> q]) : sym \in {<<"places">>, <<"boss", "places">>}, q \in PlaceSubQs}
